@@ -10,7 +10,7 @@ from vlib.runner import Check, sha
 from vlib.probe import LibError
 from checks.c07 import to_wire, dbits
 
-PTYPES = ["INTE", "REAL", "DOUB", "CHAR", "LOGI"]
+PTYPES = ["INTE", "REAL", "DOUB", "CHAR", "LOGI", "CHARL"]
 
 
 def payload(step, widx, spec):
@@ -32,10 +32,28 @@ def payload(step, widx, spec):
             d = [((tag * 0x9E3779B97F4A7C15 + i * 0x2545F4914F6CDD1D + k) & 0x7FEFFFFFFFFFFFFF) for i in range(n)]
         elif t == "LOGI":
             d = [((tag + i * i + k) >> 2) & 1 for i in range(n)]
+        elif t == "CHARL":
+            # strings longer than 8 characters: the restart stream stores them as C0nn (nn = longest string); all of one
+            # width so that padding is not an issue
+            w = CHARL_WIDTHS[(n + k) % len(CHARL_WIDTHS)]
+            d = [("S%dW%d_%d" % (step % 100, widx % 100, i % 10)).ljust(w, "x") for i in range(n)]
+            if n:
+                arrs.append({"name": name, "type": "C0NN", "elsize": w, "data": d})
+            else:
+                arrs.append({"name": name, "type": "CHAR", "data": d})
+            continue
         else:
             d = ["S%dW%d_%d" % (step % 100, widx % 100, i % 10) for i in range(n)]
         arrs.append({"name": name, "type": t, "data": d})
     return arrs
+
+
+CHARL_WIDTHS = [9, 12, 30, 132, 16]
+
+
+def wire(arrs):
+    """request form: the restart stream has one write() for strings and chooses CHAR / C0nn itself"""
+    return to_wire([dict(a, type="CHAR") if a["type"] == "C0NN" else a for a in arrs])
 
 
 def fnv_array(a):
@@ -88,6 +106,9 @@ def history_strategy(draw, big):
             t = draw(st.sampled_from(PTYPES))
             if t == "CHAR":
                 n = draw(st.sampled_from([0, 1, 7, 105, 106, 211]) | st.integers(0, 230))
+            elif t == "CHARL":
+                # (counts around 105 and around 840 / width, where a block size computed in bytes would break)
+                n = draw(st.sampled_from([1, 6, 7, 28, 29, 52, 53, 70, 71, 93, 94, 105, 106, 211]) | st.integers(0, 230))
             else:
                 n = draw(st.sampled_from([0, 1, 999, 1000, 1001, 2001]) | st.integers(0, 2600 if big else 1200))
             spec.append([t, n])
@@ -174,7 +195,7 @@ class C08(Check):
                     break
         if case.get("trunc"):
             labels.append("truncation-scan")
-        if any(n > 1000 for w in case["writes"] for t, n in w["spec"] if t != "CHAR"):
+        if any(n > 1000 for w in case["writes"] for t, n in w["spec"] if t not in ("CHAR", "CHARL")):
             labels.append("multi-block-payload")
         nontriv = inside and len(surv) >= 3
         if nontriv:
@@ -204,7 +225,7 @@ class C08(Check):
             spec = [tuple(x) for x in w["spec"]]
             arrs = step_arrays(s, widx, spec, bool(w.get("bare")))
             P.call("rst_write", dir=d, base=base, formatted=fmt, unified=True, seqnum=s,
-                   arrays=to_wire(arrs[1:]))
+                   arrays=wire(arrs[1:]))
             enc = EC.encode_formatted(arrs) if fmt else EC.encode_unformatted(arrs)
             survivors = [x for x in survivors if x[0] < s] + [(s, arrs, enc)]
             want = b"".join(x[2] for x in survivors)
